@@ -27,6 +27,7 @@ CONSTANTS
   McIn, CpIn, TcIn, \* metadata code points the client passes (2 = Unspecified)
   NIn, SsIn, FullIn, StIn,   \* bit depths, <<ssx, ssy>> pairs, {0,1}, storage {8,16}
   MaxCalls,
+  FreshOnly,        \* TRUE: constructors are only called by a client that holds no image (prunes re-construction)
   Quirks            \* [lin_to_yuv_raw_cfg : BOOLEAN, rgb_to_yuv_panics_on_odd : BOOLEAN]
 
 VARIABLES img, last, ncalls
@@ -212,7 +213,8 @@ ConvertAny ==
 
 Init == img = NoImage /\ last = [call |-> "none", args |-> NoArgs, res |-> "ok"] /\ ncalls = 0
 Next == /\ ncalls < MaxCalls
-        /\ \/ NewYuv \/ NewRgb \/ NewFloat("lin", "NewLin") \/ NewFloat("xyb", "NewXyb") \/ NewFloat("hsl", "NewHsl")
+        /\ \/ /\ (FreshOnly => img.kind = "none")
+              /\ (NewYuv \/ NewRgb \/ NewFloat("lin", "NewLin") \/ NewFloat("xyb", "NewXyb") \/ NewFloat("hsl", "NewHsl"))
            \/ ConvertAny
 Spec == Init /\ [][Next]_vars
 
